@@ -142,6 +142,14 @@ func genShape(c *sim.Case, label string, w *sim.World) *sim.Behaviour {
 			"nested": map[string]any{"a": []any{1, "x", nil}}, "refresh_expires_in": 1800}
 		c.Class("idp:extra-members")
 	}
+	if sim.Weighted(c, label+".big", 3, 1) == 1 {
+		// an answer of ~9 KiB (hundreds of groups): nothing says token responses are small
+		if b.Extra == nil {
+			b.Extra = map[string]any{}
+		}
+		b.Extra["x_groups"] = strings.Repeat("group-0123456789,", 520)
+		c.Class("idp:large-answer")
+	}
 	return b
 }
 
